@@ -125,6 +125,42 @@ func (fx *fexec) externModel(key string, x *ssa.Call, f *ssa.Function, args []Va
 		v := vc.define(x.Name(), vc.pureApp(key, []Val{buf}, rt, heapOf))
 		vc.assert(vc.typeInv(v, rt, Term{}))
 		return Val{Ty: rt, T: v}, true
+	case "sort.Sort", "sort.Stable":
+		// sort.Sort(T(s)) with T a slice type: the elements of s are permuted in place
+		// (every new element is an old one and vice versa); the order itself is the
+		// Less method's business and is NOT modelled. Anything else: outside the subset.
+		sv, ok := vc.boxed[args[0].T.S]
+		if !ok {
+			panic(engErr("sort.Sort of a value the engine cannot see through"))
+		}
+		sl, ok := vc.under(sv.Ty).(*types.Slice)
+		if !ok {
+			panic(engErr("sort.Sort of a non-slice sort.Interface is outside the subset"))
+		}
+		vc.note("extern " + key + ": permutes the slice in place; the resulting order is not modelled (assumed)")
+		comp, srt := vc.elemComp(sl.Elem())
+		h := vc.heapGet(st, comp, srt)
+		old := sel(h, sArr(sv.T))
+		na := vc.fresh("sortarr", arrayElemSort(srt))
+		vc.ctr["qv"]++
+		n := itoa(vc.ctr["qv"])
+		perm, inv := "sortperm!"+n, "sortinv!"+n
+		vc.declUF(perm, "(Int) Int")
+		vc.declUF(inv, "(Int) Int")
+		k := Term{"q_k!" + n, SInt}
+		// stated over indices relative to the slice (the shape `off + k` is what the
+		// quantified facts about the elements are triggered on)
+		off := sOff(sv.T)
+		in := func(t Term) Term { return and(le(intLit(0), t), lt(t, sLen(sv.T))) }
+		pk, ik := app(SInt, perm, k), app(SInt, inv, k)
+		body := implies(in(k), and(in(pk), eq(sel(na, add(off, k)), sel(old, add(off, pk))), in(ik), eq(sel(na, add(off, ik)), sel(old, add(off, k))),
+			eq(app(SInt, perm, ik), k), eq(app(SInt, inv, pk), k)))
+		vc.assert(Term{"(forall ((" + k.S + " Int)) " + body.S + ")", SBool})
+		k2 := Term{"q_k2!" + n, SInt}
+		out := implies(not(and(le(off, k2), lt(k2, add(off, sLen(sv.T))))), eq(sel(na, k2), sel(old, k2)))
+		vc.assert(Term{"(forall ((" + k2.S + " Int)) " + out.S + ")", SBool})
+		vc.heapSet(st, comp, store(h, sArr(sv.T), na))
+		return Val{Ty: rt}, true
 	case "slices.Delete":
 		return fx.slicesDelete(x, args, st, pos), true
 	case repoModule + "/tm2/pkg/amino.Unmarshal", repoModule + "/tm2/pkg/amino.UnmarshalSized",
@@ -182,7 +218,14 @@ func externAssigns(vc *VC, key string, cc *ssa.CallCommon) (map[string]string, b
 		sl := vc.under(cc.Args[0].Type()).(*types.Slice)
 		comp, srt := vc.elemComp(sl.Elem())
 		return map[string]string{comp: srt}, true
-	case "bytes.Equal", "errors.New", "fmt.Errorf", "fmt.Sprintf", "fmt.Sprint", "strings.Compare":
+	case "sort.Sort", "sort.Stable":
+		if mi, ok := cc.Args[0].(*ssa.MakeInterface); ok {
+			if sl, ok := vc.under(mi.X.Type()).(*types.Slice); ok {
+				comp, srt := vc.elemComp(sl.Elem())
+				return map[string]string{comp: srt}, true
+			}
+		}
+	case "bytes.Equal", "bytes.HasPrefix", "errors.New", "fmt.Errorf", "fmt.Sprintf", "fmt.Sprint", "strings.Compare":
 		return map[string]string{}, true
 	}
 	if strings.HasPrefix(key, "math/big.") {
